@@ -14,7 +14,7 @@ def handlerIds : List Slot → List Nat
 
 /-- `m'` is `m` except for the value stack and the list of executed handlers -/
 def SameButVsRan (m m' : M) : Prop :=
-  m' = { m with vs := m'.vs, ran := m'.ran, masterName := m'.masterName, simulName := m'.simulName }
+  m' = { m with vs := m'.vs, ran := m'.ran, masterName := m'.masterName, simulName := m'.simulName, efunCtx := m'.efunCtx }
 
 theorem popN_append (dv : List Slot) : ∀ (m : M) (rest : List Slot), m.vs = dv ++ rest →
     ∃ m', popN dv.length m = some m' ∧ m'.vs = rest ∧ m'.ran = (handlerIds dv).reverse ++ m.ran ∧ SameButVsRan m m' := by
@@ -59,7 +59,7 @@ theorem restoreContext_ext (m' : M) (dv : List Slot) (vs0 : List Slot) (dc : Lis
       m''.loadDepth = ld0 ∧ m''.restrictDestruct = rd0 ∧
       m''.catchValue = m'.catchValue ∧ m''.errState = m'.errState ∧ m''.installed = m'.installed ∧ m''.lastVerb = vb0 := by
   cases m' with
-  | mk cg r vs cs ctxs catchValue lastCatch errState loadDepth restrictDestruct inError inMudlibHandler ran installed fault shape out maxDepth staleCatch lastVerb masterName simulName savedMasterName savedSimulName hbCur hbOff =>
+  | mk cg r vs cs ctxs catchValue lastCatch errState loadDepth restrictDestruct inError inMudlibHandler ran installed fault shape out maxDepth staleCatch lastVerb masterName simulName savedMasterName savedSimulName efunCtx hbCur hbOff =>
   simp only at hv hc
   subst hv hc
   rcases List.eq_nil_or_concat dc with hnil | ⟨dc', f, hcat⟩
@@ -69,7 +69,7 @@ theorem restoreContext_ext (m' : M) (dv : List Slot) (vs0 : List Slot) (dc : Lis
         errState := errState, loadDepth := ld0, restrictDestruct := rd0, inError := inError,
         inMudlibHandler := inMudlibHandler, ran := ran, installed := installed, fault := fault, shape := shape,
         out := out, maxDepth := maxDepth, staleCatch := staleCatch, lastVerb := vb0, masterName := masterName, simulName := simulName,
-        savedMasterName := savedMasterName, savedSimulName := savedSimulName, hbCur := hbCur, hbOff := hbOff } vs0 rfl
+        savedMasterName := savedMasterName, savedSimulName := savedSimulName, efunCtx := efunCtx, hbCur := hbCur, hbOff := hbOff } vs0 rfl
     refine ⟨m3, ?_, hv3, ?_, ?_, ?_, hr3, ?_, ?_, ?_, ?_, ?_, ?_, ?_, ?_⟩
     · have hlt : ¬ (dv.length + vs0.length < vs0.length) := by omega
       have e : dv.length + vs0.length - vs0.length = dv.length := by omega
@@ -82,7 +82,7 @@ theorem restoreContext_ext (m' : M) (dv : List Slot) (vs0 : List Slot) (dc : Lis
         errState := errState, loadDepth := ld0, restrictDestruct := rd0, inError := inError,
         inMudlibHandler := inMudlibHandler, ran := ran, installed := installed, fault := fault, shape := shape,
         out := out, maxDepth := maxDepth, staleCatch := staleCatch, lastVerb := vb0, masterName := masterName, simulName := simulName,
-        savedMasterName := savedMasterName, savedSimulName := savedSimulName, hbCur := hbCur, hbOff := hbOff } vs0 rfl
+        savedMasterName := savedMasterName, savedSimulName := savedSimulName, efunCtx := efunCtx, hbCur := hbCur, hbOff := hbOff } vs0 rfl
     refine ⟨m3, ?_, hv3, ?_, ?_, ?_, hr3, ?_, ?_, ?_, ?_, ?_, ?_, ?_, ?_⟩
     · have hlen : cs0.length < (dc' ++ [f] ++ cs0).length := by simp; omega
       have hd := drop_to_first dc' f cs0
